@@ -1,4 +1,5 @@
 import PbVerif.Lemmas.Optim
+import PbVerif.Lemmas.Collab
 /-! C17 — optimizer methods are the documented composition of the underlying method: the index
 plumbing (the wrapped method itself is a black box; the composition is re-executed on the real code by
 the correspondence). -/
@@ -36,5 +37,121 @@ theorem minmax_is_max (bs : List (List Rat)) (n : Nat) (h : ∀ b ∈ bs, b.leng
 theorem minmax_four_product (o0 o1 : Nat) : fourFits o0 o1 = [(o0, false), (o0, true), (o1, false), (o1, true)] := rfl
 
 example : addedPart .both 2 [1, 2, 3, 4, 5, 6, 7, 8] = [7, 8, 1, 2] ∧ argminFirst [3, 1, 4, 1, 5] = 1 := by decide +kernel
+
+
+/-! ### collab_pls (`optimizers.py:_Optimizers.collab_pls`, `two_d/optimizers.py:_Optimizers.collab_pls`,
+`_algorithm_setup.py:_setup_optimizer`): the calls made to the wrapped method -/
+section collab
+open PbVerif.Collab
+
+/-- collab_kwargs: every call of the wrapped method (first pass and final fits, both settings of
+`average_dataset`, 1-D and 2-D) receives under every key that is not overridden for the method family
+exactly what the user's `method_kwargs` holds under that key (nothing, when the user gave nothing) -/
+theorem collab_kwargs (twoD : Bool) (method : String) (k : Nat) (avg : Bool) (user : Kw) (c : Call)
+    (hc : c ∈ (collabPlan twoD method k avg user).calls) (key : String) (hk : key ∉ overridden (family twoD method)) :
+    kwGet c.kw key = kwGet user key := plan_forwarded twoD method k avg user c hc key hk
+
+/-- `average_dataset=True`: k+1 calls — the mean data set with the user's dictionary untouched (also its
+`weights`), then the k data sets in order; the fits reported are calls 1..k; the reported weights / alpha are
+the ones returned by call 0 -/
+theorem collab_calls_average_dataset (twoD : Bool) (method : String) (k : Nat) (user : Kw) :
+    (collabPlan twoD method k true user).calls =
+      ⟨.mean, user⟩ :: (List.range k).map (fun i => ⟨.entry i, finalKw (family twoD method) k true user⟩) ∧
+    (collabPlan twoD method k true user).results = (List.range k).map (· + 1) ∧
+    (collabPlan twoD method k true user).avgWeights = .fitWeights 0 ∧
+    (collabPlan twoD method k true user).avgAlpha = (if (family twoD method).calcAlpha then some (.fitAlpha 0) else none) :=
+  ⟨rfl, rfl, rfl, rfl⟩
+
+/-- `average_dataset=False`: 2k calls — every data set in order with the user's dictionary untouched, then
+every data set in order with the final dictionary; the fits reported are calls k..2k-1; the reported
+weights / alpha are the mean over the first k fits, rows in the order 0..k-1 -/
+theorem collab_calls_average_weights (twoD : Bool) (method : String) (k : Nat) (user : Kw) :
+    (collabPlan twoD method k false user).calls =
+      (List.range k).map (fun i => ⟨.entry i, user⟩) ++
+      (List.range k).map (fun i => ⟨.entry i, finalKw (family twoD method) k false user⟩) ∧
+    (collabPlan twoD method k false user).results = (List.range k).map (· + k) ∧
+    (collabPlan twoD method k false user).avgWeights = .meanWeights (List.range k) ∧
+    (collabPlan twoD method k false user).avgAlpha =
+      (if (family twoD method).calcAlpha then some (.meanAlpha (List.range k)) else none) := by
+  refine ⟨rfl, ?_, rfl, rfl⟩
+  simp [collabPlan, firstPass]
+
+/-- the fit reported for data set i is made on data set i; its `weights` are the reported `average_weights`,
+its `alpha` the reported `average_alpha` (aspls family; otherwise no `average_alpha` is reported), and
+`tol` / `tol_2` / `weights_as_mask` are written exactly for the families the code names -/
+theorem collab_final_fit_kwargs (twoD : Bool) (method : String) (k : Nat) (avg : Bool) (user : Kw) (i : Nat) (hi : i < k) :
+    ∃ c : Call, (collabPlan twoD method k avg user).calls.getD ((collabPlan twoD method k avg user).results.getD i 0) ⟨.mean, []⟩ = c ∧
+      c.data = .entry i ∧
+      kwGet c.kw "weights" = some (collabPlan twoD method k avg user).avgWeights ∧
+      ((family twoD method).calcAlpha = true → kwGet c.kw "alpha" = (collabPlan twoD method k avg user).avgAlpha) ∧
+      ((family twoD method).calcAlpha = false → (collabPlan twoD method k avg user).avgAlpha = none) ∧
+      ((family twoD method).setTol = true → kwGet c.kw "tol" = some .inf) ∧
+      ((family twoD method).setTol2 = true → kwGet c.kw "tol_2" = some .inf) ∧
+      ((family twoD method).asMask = true → kwGet c.kw "weights_as_mask" = some .true_) := by
+  obtain ⟨h1, h2⟩ := plan_result_call twoD method k avg user i hi
+  refine ⟨_, rfl, ?_⟩
+  rw [h1, h2]
+  refine ⟨rfl, finalKw_weights _ _ _ _, ?_, ?_, finalKw_tol _ _ _ _, finalKw_tol2 _ _ _ _, finalKw_mask _ _ _ _⟩
+  · intro hc
+    simp [collabPlan, hc, finalKw_alpha _ _ _ _ hc]
+  · intro hc
+    simp [collabPlan, hc]
+
+/-- what is raised before any fit, in the order the code checks: unknown method, then (1-D only) an `x_data`
+key in `method_kwargs`, then the number of dimensions of the data -/
+theorem collab_errors (twoD known : Bool) (ndim : Nat) (method : String) (k : Nat) (avg : Bool) (user : Kw) :
+    collabCall twoD known ndim method k avg user =
+      if known = false then .error .attributeError
+      else if twoD = false ∧ (kwGet user "x_data").isSome then .error .keyError
+      else if ndim ≠ (if twoD then 3 else 2) then .error .valueError
+      else .ok (collabPlan twoD method k avg user) := by
+  cases known <;> cases twoD <;> simp [collabCall]
+
+/-- meaning of the plan for ANY wrapped method `f` (stateful or not): one dictionary `kw` serves all reported
+fits; its `weights` / `alpha` are what `params` reports, and every key that is not overridden holds the
+user's value.  (`_hk`: the data set is not empty — the mean over zero rows is NaN in the code and the first fit
+raises; `hu`: the user's dictionary holds the user's own values) -/
+theorem collab_reported_weights_are_used (f : Method) (twoD : Bool) (method : String) (avg : Bool) (user : Kw)
+    (ds : List (List Rat)) (_hk : 0 < ds.length) (hu : UserKw user) :
+    ∃ kw : List (String × Arg),
+      getArg kw "weights" = some (runCollab f twoD method avg user ds).avgWeights ∧
+      ((family twoD method).calcAlpha = true → getArg kw "alpha" = (runCollab f twoD method avg user ds).avgAlpha) ∧
+      ((family twoD method).calcAlpha = false → (runCollab f twoD method avg user ds).avgAlpha = none) ∧
+      ((family twoD method).setTol = true → getArg kw "tol" = some .inf) ∧
+      ((family twoD method).setTol2 = true → getArg kw "tol_2" = some .inf) ∧
+      ((family twoD method).asMask = true → getArg kw "weights_as_mask" = some .true_) ∧
+      (∀ key, key ∉ overridden (family twoD method) → getArg kw key = getArg (resolveKw [] user) key) ∧
+      ∀ i, i < ds.length →
+        (runCollab f twoD method avg user ds).trace.getD ((if avg then 1 else ds.length) + i) default =
+          ⟨ds.getD i [], kw, f ((if avg then 1 else ds.length) + i) (ds.getD i []) kw⟩ ∧
+        (runCollab f twoD method avg user ds).baselines.getD i [] =
+          (f ((if avg then 1 else ds.length) + i) (ds.getD i []) kw).baseline :=
+  runCollab_spec f twoD method avg user ds hu
+
+/-- a data set with a single entry: both settings of `average_dataset` make the same two fits with the same
+arguments and report the same baselines, weights and alpha (the mean of one row is the row) -/
+theorem collab_single_dataset (f : Method) (twoD : Bool) (method : String) (user : Kw) (d : List Rat) (hu : UserKw user) :
+    runCollab f twoD method true user [d] = runCollab f twoD method false user [d] :=
+  runCollab_single f twoD method user d hu
+
+example : family false "fabc" = ⟨false, false, false, true⟩ ∧ family false "pspline_brpls" = ⟨false, true, true, false⟩ ∧
+    family false "aspls" = ⟨true, true, false, false⟩ ∧ family false "mpls" = ⟨false, false, false, false⟩ ∧
+    family true "mpls" = ⟨false, true, false, false⟩ := by decide
+example : (collabPlan false "aspls" 2 false [("lam", .user "a"), ("weights", .user "w")]).calls =
+    [⟨.entry 0, [("lam", .user "a"), ("weights", .user "w")]⟩, ⟨.entry 1, [("lam", .user "a"), ("weights", .user "w")]⟩,
+     ⟨.entry 0, [("lam", .user "a"), ("weights", .meanWeights [0, 1]), ("alpha", .meanAlpha [0, 1]), ("tol", .inf)]⟩,
+     ⟨.entry 1, [("lam", .user "a"), ("weights", .meanWeights [0, 1]), ("alpha", .meanAlpha [0, 1]), ("tol", .inf)]⟩] ∧
+    "lam" ∉ overridden (family false "aspls") ∧ UserKw [("lam", .user "a"), ("weights", .user "w")] := by
+  refine ⟨by decide, by decide, ?_⟩
+  intro p hp
+  simp only [List.mem_cons, List.not_mem_nil, or_false] at hp
+  rcases hp with rfl | rfl <;> exact ⟨_, rfl⟩
+example : collabCall false true 2 "asls" 1 true [("x_data", .user "x")] = .error .keyError ∧
+    (collabCall true true 3 "asls" 1 true [("x_data", .user "x")]).isOk = true := by decide
+example : meanRows [[1, 2], [3, 6], [5, 1]] = [3, 3] ∧
+    (runCollab (fun n d _ => ⟨d, d.map (· + n), d⟩) false "asls" false [] [[1, 2], [3, 6]]).avgWeights = .arr [2 + 1/2, 4 + 1/2] := by
+  decide +kernel
+
+end collab
 
 end PbVerif.C17
